@@ -2,6 +2,8 @@ package jsonapi
 
 import (
 	"context"
+	"encoding/json"
+	"errors"
 	"io"
 	"mime"
 	"net/http"
@@ -70,6 +72,10 @@ func decodeRequestDocument(r *http.Request, v any) error {
 	body, err := io.ReadAll(r.Body)
 	if err != nil {
 		return err
+	}
+	if !json.Valid(body) {
+		// jsoniter takes a NUL byte for the end of the input.
+		return errors.New("the request body is not a JSON value")
 	}
 	return jsoniter.Unmarshal(body, v)
 }
